@@ -633,6 +633,16 @@ func (idx *Index) update(key []byte, prev *types.Block, location types.Block) er
 
 // Remove removes a key from the index.
 func (idx *Index) Remove(key []byte) (bool, error) {
+	return idx.remove(key, nil)
+}
+
+// RemoveAt removes a key from the index only if the index currently maps the
+// key to the given location.
+func (idx *Index) RemoveAt(key []byte, location types.Block) (bool, error) {
+	return idx.remove(key, &location)
+}
+
+func (idx *Index) remove(key []byte, prev *types.Block) (bool, error) {
 	// Get record list and bucket index
 	bucket, err := idx.getBucketIndex(key)
 	if err != nil {
@@ -662,6 +672,10 @@ func (idx *Index) Remove(key []byte) (bool, error) {
 	r := records.GetRecord(indexKey)
 	if r == nil {
 		// The record does not exist. Nothing to remove.
+		return false, nil
+	}
+	if prev != nil && r.Block != *prev {
+		// The key is no longer at the expected location.
 		return false, nil
 	}
 
